@@ -8,7 +8,13 @@ import (
 
 	"github.com/ovn-org/libovsdb/ovsdb"
 
+	"context"
+
+	"github.com/go-logr/logr"
+	"github.com/ovn-org/libovsdb/client"
+
 	"vh/abs"
+	"vh/proxy"
 	"vh/rawrpc"
 	"vh/rectxn"
 )
@@ -33,6 +39,7 @@ type TxnRunner struct {
 	b      *abs.Built
 	dir    string
 	n      int
+	notif  *notifClient
 }
 
 func NewTxnRunner(dir string) (*TxnRunner, error) {
@@ -69,6 +76,9 @@ func NewTxnRunner(dir string) (*TxnRunner, error) {
 }
 
 func (r *TxnRunner) Close() {
+	if r.notif != nil {
+		r.notif.close()
+	}
 	r.direct.Close()
 	r.server.Close()
 }
@@ -193,5 +203,90 @@ func (r *TxnRunner) Monitor(tree *Node, method string) map[string]interface{} {
 		ev["alive"] = false
 		ev["msg"] = short(fmt.Sprintf("%v; echo afterwards: %v", ev["msg"], err))
 	}
+	return ev
+}
+
+// ---- notifications sent to a real client
+
+type notifClient struct {
+	px  *proxy.Proxy
+	cli client.Client
+}
+
+func (r *TxnRunner) newNotifClient() (*notifClient, error) {
+	r.n++
+	px, err := proxy.New(fmt.Sprintf("%s/px%d.sock", r.dir, r.n), r.server.Sock)
+	if err != nil {
+		return nil, err
+	}
+	l := logr.Discard()
+	cli, err := client.NewOVSDBClient(r.b.ClientDB, client.WithEndpoint("unix:"+px.Path), client.WithLogger(&l))
+	if err != nil {
+		px.Close()
+		return nil, err
+	}
+	ctx, cancel := context.WithTimeout(context.Background(), 10*time.Second)
+	defer cancel()
+	if err := cli.Connect(ctx); err != nil {
+		px.Close()
+		return nil, err
+	}
+	if _, err := cli.MonitorAll(ctx); err != nil {
+		cli.Close()
+		px.Close()
+		return nil, err
+	}
+	return &notifClient{px: px, cli: cli}, nil
+}
+
+func (n *notifClient) close() {
+	n.cli.Close()
+	n.px.Close()
+}
+
+// Notif sends one update / update2 / update3 notification carrying the tree to a real client that monitors
+// table T, as if its server had sent it: the client must take it (apply it, or refuse it and disconnect) without
+// crashing, and a client must be able to work afterwards.
+func (r *TxnRunner) Notif(tree *Node, method string) map[string]interface{} {
+	ev := map[string]interface{}{"ev": "wtxn", "mode": "notif:" + method, "outcome": "", "alive": true, "msg": ""}
+	if r.notif == nil {
+		nc, err := r.newNotifClient()
+		if err != nil {
+			ev["outcome"], ev["alive"], ev["msg"] = "dead", false, "client set-up: "+short(err.Error())
+			return ev
+		}
+		r.notif = nc
+	}
+	nc := r.notif
+	id := nc.px.MonitorID()
+	var msg string
+	switch method {
+	case "update3":
+		msg = fmt.Sprintf(`{"id":null,"method":"update3","params":[%s,"00000000-0000-4000-9000-%012d",%s]}`, id, r.n, tree.Bytes())
+	default:
+		msg = fmt.Sprintf(`{"id":null,"method":%q,"params":[%s,%s]}`, method, id, tree.Bytes())
+	}
+	r.n++
+	if nc.px.InjectToClient([]byte(msg)) == 0 {
+		ev["msg"] = "no connection to inject into"
+	}
+	// a round trip behind the notification: the client has dealt with it when the echo returns
+	ctx, cancel := context.WithTimeout(context.Background(), 5*time.Second)
+	err := nc.cli.Echo(ctx)
+	cancel()
+	if err == nil && nc.cli.Connected() {
+		ev["outcome"] = "results" // taken (applied or ignored)
+		return ev
+	}
+	// refused: the client disconnects (cache inconsistency); a fresh client must be able to work
+	ev["outcome"] = "error"
+	nc.close()
+	r.notif = nil
+	nc2, err := r.newNotifClient()
+	if err != nil {
+		ev["alive"], ev["msg"] = false, "no client can be set up after the notification: "+short(err.Error())
+		return ev
+	}
+	r.notif = nc2
 	return ev
 }
